@@ -157,6 +157,27 @@ fn main() {
 			};
 			h.go(&sys, &Limits::depth(if thorough { 8 } else { 8 }).wall_secs(60), true);
 		}
+		// tiny units: the definitions are homogeneous (or dimensionless), guards written as `> 0` must not
+		// act as absolute thresholds
+		{
+			let n = 3.max(min);
+			let t = (2.0f64).powi(if IS_F32 { -40 } else { -60 }) as ValueType;
+			let sys = MSys {
+				name: format!("{name}/depth/tiny-units/n={n}"),
+				spec: spec(name),
+				params: vec![Params::N(n as PeriodType)],
+				v0s: vals(&[0.0, t]),
+				alphabet: vals(&[0.0, t, -3.0 * t, 2.0 * t]),
+				mk_ref: mk_ref(name),
+				shape: Shape::Free,
+				span: n_of,
+				keyed: false,
+				positions: None,
+				check_peek: true,
+				extra: None,
+			};
+			h.go(&sys, &Limits::depth(if thorough { 8 } else { 6 }).wall_secs(60), true);
+		}
 		// (b) every length, flat base with deviations
 		let mut ns: Vec<usize> = (min..=maxn).collect();
 		if std::env::var("VERIF_WIDE").as_deref() == Ok("1") {
